@@ -1,6 +1,623 @@
-//! C13 — not implemented yet.
-use mc_core::Ctx;
+//! C13 — substate locks are exclusive for writers.
+//!
+//! Statement: a substate is never open for writing while any other handle to it is open, any number of
+//! read handles may coexist, a handle is usable exactly from open until close, and a node is reported
+//! locked exactly while some handle on one of its substates is open.
+//!
+//! Shape H (explicit-state history exploration), two layers:
+//!
+//! * Layer 1 — the counting core: the real `radix_engine::kernel::substate_locks::SubstateLocks<u32>`
+//!   driven by every sequence of lock / unlock / dead-handle requests over 8 substates
+//!   (2 nodes × 2 partitions × {Field(0), Map([1])}) up to a depth, compared after every step with an
+//!   abstract reader/writer model (module `l1`).
+//! * Layer 2 — the seam the kernel uses: the real `SubstateIO` over a real `Heap` and a real `Track`
+//!   on an in-memory database (module `c13_l2`).
+//!
+//! The stateright cross-check of the design is replaced by (a) running the first layers of the Layer 1
+//! exploration twice and demanding identical counts (a harness that does not own its nondeterminism is a
+//! machinery error) and (b) a second Layer 1 exploration with an *order-sensitive* fingerprint whose states,
+//! projected to multisets, must be exactly the states of the multiset exploration of the same depth.
+use mc_core::{bfs, BfsStats, Ctx, Level, Machine};
+use radix_common::prelude::*;
+use radix_engine::kernel::substate_locks::SubstateLocks;
+use serde_json::json;
+use std::collections::{BTreeMap, BTreeSet};
 
-pub fn run(_ctx: Ctx) -> ! {
-    mc_core::machinery_error("C13: not implemented")
+// ------------------------------------------------------------------------------------------------
+// Layer 1
+// ------------------------------------------------------------------------------------------------
+
+pub const N_SUBS: usize = 8;
+
+pub fn node(i: usize) -> NodeId {
+    // two "real" nodes + one that is never locked (index 2), differing in the last byte only so that a
+    // hash/compare shortcut on a prefix would collide
+    let mut raw = [0x5Au8; NodeId::LENGTH];
+    raw[0] = 0xC0; // internal generic component entity byte (irrelevant to SubstateLocks)
+    raw[NodeId::LENGTH - 1] = i as u8;
+    NodeId(raw)
+}
+
+/// substate index s ∈ 0..8: node = s/4, partition = (s/2)%2, key = s%2
+pub fn sub(s: usize) -> (NodeId, PartitionNumber, SubstateKey) {
+    let key = if s % 2 == 0 { SubstateKey::Field(0) } else { SubstateKey::Map(vec![1]) };
+    (node(s / 4), PartitionNumber(((s / 2) % 2) as u8), key)
+}
+
+/// Substates that are never locked by any op; they must never be reported as locked.
+fn foreign_subs() -> Vec<(NodeId, PartitionNumber, SubstateKey)> {
+    vec![
+        (node(2), PartitionNumber(0), SubstateKey::Field(0)),
+        (node(0), PartitionNumber(2), SubstateKey::Field(0)),
+        (node(0), PartitionNumber(0), SubstateKey::Field(1)),
+        (node(0), PartitionNumber(0), SubstateKey::Map(vec![])),
+        (node(1), PartitionNumber(1), SubstateKey::Map(vec![1, 0])),
+    ]
+}
+
+#[derive(Clone, Copy, Debug, PartialEq, Eq, PartialOrd, Ord, Hash)]
+pub enum Which {
+    /// the handle of this class that was opened first
+    Oldest,
+    /// the handle of this class that was opened last (only offered when the class has ≥ 2 handles)
+    Newest,
+}
+
+#[derive(Clone, Copy, Debug, PartialEq, Eq, PartialOrd, Ord, Hash)]
+pub enum Dead {
+    /// the most recently closed handle id that is not live again
+    LastClosed,
+    /// the first closed handle id that is not live again
+    FirstClosed,
+    /// an id that was never handed out (max issued + 1, or 0 if none)
+    NeverIssued,
+    /// u32::MAX
+    Far,
+}
+
+#[derive(Clone, Copy, Debug, PartialEq, Eq, PartialOrd, Ord, Hash)]
+pub enum Op {
+    Lock { sub: u8, read_only: bool },
+    /// close one live handle on `sub` (all live handles on a substate have the same mode)
+    Unlock { sub: u8, which: Which },
+    DeadGet(Dead),
+    DeadGetMut(Dead),
+    DeadUnlock(Dead),
+}
+
+/// Abstract reader/writer model. Written from the statement, not from the code.
+#[derive(Clone, Default, Debug)]
+pub struct Model {
+    /// per substate: (number of open read handles, a write handle is open)
+    pub rw: BTreeMap<u8, (u32, bool)>,
+    /// open handles in order of acquisition: (id given by the real object, substate, read_only, token)
+    pub live: Vec<(u32, u8, bool, u32)>,
+    /// closed handle ids in order of closing
+    pub closed: Vec<u32>,
+    pub max_issued: Option<u32>,
+    pub tokens: u32,
+}
+
+impl Model {
+    pub fn may_lock(&self, s: u8, read_only: bool) -> bool {
+        let (r, w) = self.rw.get(&s).copied().unwrap_or((0, false));
+        if read_only {
+            !w
+        } else {
+            !w && r == 0
+        }
+    }
+    pub fn sub_locked(&self, s: u8) -> bool {
+        let (r, w) = self.rw.get(&s).copied().unwrap_or((0, false));
+        w || r > 0
+    }
+    pub fn node_locked(&self, n: usize) -> bool {
+        self.live.iter().any(|h| (h.1 as usize) / 4 == n)
+    }
+    fn on_lock(&mut self, id: u32, s: u8, read_only: bool, token: u32) {
+        let e = self.rw.entry(s).or_insert((0, false));
+        if read_only {
+            e.0 += 1;
+        } else {
+            e.1 = true;
+        }
+        self.live.push((id, s, read_only, token));
+        self.max_issued = Some(self.max_issued.map_or(id, |m| m.max(id)));
+        self.closed.retain(|c| *c != id); // an id that is handed out again is live again
+    }
+    fn on_unlock(&mut self, idx: usize) -> (u32, u8, bool, u32) {
+        let h = self.live.remove(idx);
+        let e = self.rw.get_mut(&h.1).expect("model: unlock of unknown substate");
+        if h.2 {
+            e.0 -= 1;
+        } else {
+            e.1 = false;
+        }
+        self.closed.push(h.0);
+        h
+    }
+    fn live_index(&self, s: u8, which: Which) -> Option<usize> {
+        let mut it = self.live.iter().enumerate().filter(|(_, h)| h.1 == s).map(|(i, _)| i);
+        match which {
+            Which::Oldest => it.next(),
+            Which::Newest => it.last(),
+        }
+    }
+    fn dead_id(&self, d: Dead) -> Option<u32> {
+        let live: BTreeSet<u32> = self.live.iter().map(|h| h.0).collect();
+        let r = match d {
+            Dead::LastClosed => self.closed.last().copied(),
+            Dead::FirstClosed => self.closed.first().copied(),
+            Dead::NeverIssued => Some(self.max_issued.map_or(0, |m| m.wrapping_add(1))),
+            Dead::Far => Some(u32::MAX),
+        };
+        r.filter(|id| !live.contains(id))
+    }
+}
+
+pub struct St {
+    real: SubstateLocks<u32>,
+    model: Model,
+    hist: Vec<Op>,
+    /// lock-availability bits of the last lookahead probe (see `probes`)
+    probe_bits: u16,
+}
+
+type V = (String, String);
+
+fn v(key: &str, what: String) -> V {
+    (key.to_string(), what)
+}
+
+/// Compare everything the real object lets us observe with the model.
+fn compare(real: &SubstateLocks<u32>, model: &Model, ctx_key: &str) -> Result<(), V> {
+    for s in 0..N_SUBS {
+        let (n, p, k) = sub(s);
+        let got = real.is_locked(&n, p, &k);
+        let want = model.sub_locked(s as u8);
+        if got != want {
+            return Err(v(
+                &format!("{ctx_key}:is_locked"),
+                format!("is_locked(substate {s}) = {got}, model (open handles on it: {:?}) says {want}", model.rw.get(&(s as u8))),
+            ));
+        }
+    }
+    for (n, p, k) in foreign_subs() {
+        if real.is_locked(&n, p, &k) {
+            return Err(v(&format!("{ctx_key}:is_locked-foreign"), format!("never-locked substate ({n:?},{p:?},{k:?}) reported locked")));
+        }
+    }
+    for n in 0..3 {
+        let got = real.node_is_locked(&node(n));
+        let want = model.node_locked(n);
+        if got != want {
+            return Err(v(
+                &format!("{ctx_key}:node_is_locked"),
+                format!("node_is_locked(node {n}) = {got}, but open handles on that node: {}", model.live.iter().filter(|h| h.1 as usize / 4 == n).count()),
+            ));
+        }
+    }
+    // what the real object says about the handles it granted and did not yet close: (substate, read_only)
+    let mut described: Vec<((NodeId, PartitionNumber, SubstateKey), bool)> = vec![];
+    for (id, s, _ro, token) in &model.live {
+        match mc_core::catch(|| {
+            let (n, p, k, d) = real.get(*id);
+            (*n, *p, k.clone(), *d)
+        }) {
+            Ok((n, p, k, d)) => {
+                if (n, p, k.clone()) != sub(*s as usize) || d != *token {
+                    return Err(v(
+                        &format!("{ctx_key}:get-live"),
+                        format!("get(open handle {id}) = ({n:?},{p:?},{k:?},data {d}), opened on substate {s} with data {token}"),
+                    ));
+                }
+                described.push(((n, p, k), d & 1 == 1));
+            }
+            Err(p) => return Err(v(&format!("{ctx_key}:get-live-panic"), format!("get(open handle {id}) panicked: {p}"))),
+        }
+    }
+    // exclusivity invariant of the statement on the open handles as the real object describes them
+    for (i, (k, ro)) in described.iter().enumerate() {
+        if !ro && described.iter().enumerate().any(|(j, (k2, _))| j != i && k2 == k) {
+            return Err(v(&format!("{ctx_key}:exclusivity"), format!("substate {k:?} is open for writing while another handle to it is open")));
+        }
+    }
+    Ok(())
+}
+
+fn apply(real: &mut SubstateLocks<u32>, model: &mut Model, op: &Op) -> Result<String, V> {
+    match *op {
+        Op::Lock { sub: s, read_only } => {
+            let (n, p, k) = sub(s as usize);
+            let token = 1000 + model.tokens * 16 + (s as u32) * 2 + read_only as u32;
+            model.tokens += 1;
+            let want = model.may_lock(s, read_only);
+            let got = real.lock(&n, p, &k, read_only, token);
+            match (got, want) {
+                (Some(id), true) => {
+                    if model.live.iter().any(|h| h.0 == id) {
+                        return Err(v("lock:handle-reused-while-open", format!("lock returned handle {id} which is still open")));
+                    }
+                    model.on_lock(id, s, read_only, token);
+                    Ok(if read_only { "lock-read:granted" } else { "lock-write:granted" }.into())
+                }
+                (None, false) => Ok(if read_only { "lock-read:refused(writer-open)" } else { "lock-write:refused(handle-open)" }.into()),
+                (Some(id), false) => Err(v(
+                    if read_only { "lock-read:granted-while-writer-open" } else { "lock-write:granted-while-handle-open" },
+                    format!(
+                        "lock(substate {s}, read_only={read_only}) returned handle {id} although the substate has open handles {:?} (readers, writer)",
+                        model.rw.get(&s)
+                    ),
+                )),
+                (None, true) => Err(v(
+                    if read_only { "lock-read:refused-without-writer" } else { "lock-write:refused-without-handle" },
+                    format!("lock(substate {s}, read_only={read_only}) refused although open handles on it are {:?}", model.rw.get(&s)),
+                )),
+            }
+        }
+        Op::Unlock { sub: s, which } => {
+            let idx = model.live_index(s, which).ok_or_else(|| v("harness:unlock-not-enabled", format!("{op:?}")))?;
+            let id = model.live[idx].0;
+            let got = mc_core::catch(|| real.unlock(id)).map_err(|p| v("unlock:live-handle-panic", format!("unlock(open handle {id}) panicked: {p}")))?;
+            let h = model.on_unlock(idx);
+            if (got.0, got.1, got.2.clone()) != sub(h.1 as usize) || got.3 != h.3 {
+                return Err(v("unlock:wrong-substate", format!("unlock({id}) returned {got:?}, handle was opened on substate {} with data {}", h.1, h.3)));
+            }
+            Ok(if h.2 { "unlock-read" } else { "unlock-write" }.into())
+        }
+        Op::DeadGet(d) | Op::DeadGetMut(d) | Op::DeadUnlock(d) => {
+            let id = model.dead_id(d).ok_or_else(|| v("harness:dead-not-enabled", format!("{op:?}")))?;
+            let (name, r) = match op {
+                Op::DeadGet(_) => ("get", mc_core::catch(|| real.get(id).3).map(|_| ())),
+                Op::DeadGetMut(_) => ("get_mut", mc_core::catch(|| real.get_mut(id).3).map(|_| ())),
+                _ => ("unlock", mc_core::catch(|| real.unlock(id)).map(|_| ())),
+            };
+            match r {
+                Ok(()) => Err(v(&format!("dead-handle:{name}-succeeded"), format!("{name}({id}) succeeded although handle {id} is not open ({d:?})"))),
+                Err(_) => Ok(format!("dead-handle:{name}-refused")),
+            }
+        }
+    }
+}
+
+fn rebuild(hist: &[Op]) -> Result<(SubstateLocks<u32>, Model), V> {
+    let mut real = SubstateLocks::new();
+    let mut model = Model::default();
+    for op in hist {
+        apply(&mut real, &mut model, op)?;
+    }
+    Ok((real, model))
+}
+
+/// Lookahead on a throw-away copy (the real object is not `Clone`, so the copy is a replay):
+/// (1) for every substate, would a read / a write lock be granted now — compared with the model and
+///     returned as 16 bits for the fingerprint (exposes the hidden per-substate counter);
+/// (2) closing every open handle one by one keeps is_locked / node_is_locked in step with the model and
+///     ends with nothing locked and every substate write-lockable.
+fn probes(hist: &[Op]) -> Result<u16, V> {
+    let (mut real, mut model) = rebuild(hist).map_err(|e| v("harness:probe-replay", format!("{e:?}")))?;
+    let mut bits = 0u16;
+    for s in 0..N_SUBS as u8 {
+        for (j, ro) in [true, false].into_iter().enumerate() {
+            let (n, p, k) = sub(s as usize);
+            let want = model.may_lock(s, ro);
+            let got = real.lock(&n, p, &k, ro, 7);
+            if got.is_some() != want {
+                return Err(v(
+                    "probe:lock-availability",
+                    format!("in this state lock(substate {s}, read_only={ro}) granted={} but open handles on it are {:?}", got.is_some(), model.rw.get(&s)),
+                ));
+            }
+            if let Some(id) = got {
+                bits |= 1 << (2 * s as usize + j);
+                mc_core::catch(|| real.unlock(id)).map_err(|p| v("probe:unlock-panic", p))?;
+            }
+        }
+    }
+    compare(&real, &model, "probe:after-trial-locks")?;
+    while !model.live.is_empty() {
+        let id = model.live[0].0;
+        mc_core::catch(|| real.unlock(id)).map_err(|p| v("probe:drain-unlock-panic", p))?;
+        model.on_unlock(0);
+        compare(&real, &model, "probe:drain")?;
+    }
+    for s in 0..N_SUBS {
+        let (n, p, k) = sub(s);
+        if real.lock(&n, p, &k, false, 9).is_none() {
+            return Err(v("probe:write-lock-after-all-closed", format!("after closing every handle a write lock on substate {s} is refused")));
+        }
+    }
+    Ok(bits)
+}
+
+pub struct L1 {
+    /// order-sensitive fingerprint (cross-check run) instead of the multiset one
+    pub ordered: bool,
+    /// run the lookahead probes on every state-changing transition (oracle + fingerprint bits)
+    pub probes: bool,
+}
+
+fn new_st(real: SubstateLocks<u32>, model: Model, hist: Vec<Op>) -> St {
+    St { real, model, hist, probe_bits: 0xFFFF }
+}
+
+impl Machine for L1 {
+    type Op = Op;
+    type St = St;
+
+    fn init(&self) -> St {
+        new_st(SubstateLocks::new(), Model::default(), vec![])
+    }
+
+    fn ops(&self, st: &St, _depth: usize) -> Vec<Op> {
+        let mut ops = vec![];
+        for s in 0..N_SUBS as u8 {
+            ops.push(Op::Lock { sub: s, read_only: true });
+            ops.push(Op::Lock { sub: s, read_only: false });
+        }
+        for s in 0..N_SUBS as u8 {
+            let n = st.model.live.iter().filter(|h| h.1 == s).count();
+            if n >= 1 {
+                ops.push(Op::Unlock { sub: s, which: Which::Oldest });
+            }
+            if n >= 2 {
+                ops.push(Op::Unlock { sub: s, which: Which::Newest });
+            }
+        }
+        let mut seen = BTreeSet::new();
+        for d in [Dead::LastClosed, Dead::FirstClosed, Dead::NeverIssued, Dead::Far] {
+            if let Some(id) = st.model.dead_id(d) {
+                if seen.insert(id) {
+                    ops.push(Op::DeadGet(d));
+                    ops.push(Op::DeadGetMut(d));
+                    ops.push(Op::DeadUnlock(d));
+                }
+            }
+        }
+        ops
+    }
+
+    fn step(&self, st: &mut St, op: &Op) -> Result<String, V> {
+        let class = apply(&mut st.real, &mut st.model, op)?;
+        st.hist.push(*op);
+        compare(&st.real, &st.model, "after-step")?;
+        // lookahead only after ops that were meant to change the state; after a dead-handle op the state is
+        // the one already probed (and `compare` above has just confirmed that nothing observable moved)
+        if self.probes && matches!(op, Op::Lock { .. } | Op::Unlock { .. }) {
+            st.probe_bits = probes(&st.hist)?;
+        }
+        Ok(class)
+    }
+
+    /// Canonical form of the real object's observable state:
+    /// the open handles as the real object describes them (`get(h)` → substate, data∋mode), with handle ids
+    /// dropped — ids are a monotone counter and only name handles —, the is_locked / node_is_locked bits, and
+    /// the lock-availability bits of the lookahead probe (they expose the hidden per-substate counters).
+    ///
+    /// Multiset form (default): handles sorted by (substate, mode). Sound because nothing in the object's API
+    /// iterates over handles (the `IndexMap` order changed by `swap_remove` is unobservable) and every op of the
+    /// alphabet addresses a handle by (substate, oldest/newest), so states that differ only in acquisition order
+    /// or absolute ids have the same futures up to renaming. The `ordered` run keeps acquisition order and is
+    /// used to confirm this on small depths.
+    fn fingerprint(&self, st: &St) -> Vec<u8> {
+        let mut hs: Vec<(u8, u8)> = vec![];
+        for (id, _, _, _) in &st.model.live {
+            let (n, p, k, d) = st.real.get(*id);
+            let s = (0..N_SUBS).find(|s| sub(*s) == (*n, *p, k.clone())).map(|s| s as u8).unwrap_or(255);
+            hs.push((s, (*d & 1) as u8));
+        }
+        if !self.ordered {
+            hs.sort();
+        }
+        let mut out = vec![];
+        for (s, m) in hs {
+            out.push(s);
+            out.push(m);
+        }
+        out.push(0xFE);
+        let mut bits = 0u16;
+        for s in 0..N_SUBS {
+            let (n, p, k) = sub(s);
+            if st.real.is_locked(&n, p, &k) {
+                bits |= 1 << s;
+            }
+        }
+        for n in 0..3 {
+            if st.real.node_is_locked(&node(n)) {
+                bits |= 1 << (8 + n);
+            }
+        }
+        out.extend_from_slice(&bits.to_le_bytes());
+        if self.probes {
+            out.extend_from_slice(&st.probe_bits.to_le_bytes());
+        }
+        out
+    }
+}
+
+fn multiset_projection_count(m: &L1, max_depth: usize, threads: usize) -> u64 {
+    // independent enumeration of the ordered machine's reachable states, projected to multisets
+    // (plain recursive DFS over histories with its own visited set; no mc_core::bfs involved)
+    let _ = threads;
+    let mut seen_ord: BTreeSet<Vec<u8>> = BTreeSet::new();
+    let mut proj: BTreeSet<Vec<(u8, bool)>> = BTreeSet::new();
+    let mut frontier: Vec<Vec<Op>> = vec![vec![]];
+    let init = m.init();
+    seen_ord.insert(m.fingerprint(&init));
+    proj.insert(vec![]);
+    for _ in 0..max_depth {
+        let mut next = vec![];
+        for h in &frontier {
+            let (real, model) = rebuild(h).unwrap_or_else(|e| mc_core::machinery_error(&format!("projection replay: {e:?}")));
+            let st = new_st(real, model, h.clone());
+            for op in m.ops(&st, 0) {
+                let mut h2 = h.clone();
+                h2.push(op);
+                let (real, model) = match rebuild(&h2) {
+                    Ok(x) => x,
+                    Err(_) => continue, // violations are reported by the main exploration
+                };
+                let st2 = new_st(real, model, h2.clone());
+                if seen_ord.insert(m.fingerprint(&st2)) {
+                    let mut ms: Vec<(u8, bool)> = st2.model.live.iter().map(|x| (x.1, x.2)).collect();
+                    ms.sort();
+                    proj.insert(ms);
+                    next.push(h2);
+                }
+            }
+        }
+        frontier = next;
+    }
+    proj.len() as u64
+}
+
+// ------------------------------------------------------------------------------------------------
+// driver
+// ------------------------------------------------------------------------------------------------
+
+pub fn run(ctx: Ctx) -> ! {
+    if ctx.replay.is_some() {
+        replay(ctx);
+    }
+    let quick = ctx.quick();
+    let d1 = ctx.pick(7, 10);
+    let d_ord = ctx.pick(4, 5);
+    let (d2, cap2_s) = ctx.pick((4, 40.0), (6, 900.0));
+
+    // determinism: the first layers twice, identical counts (replaces the stateright cross-check)
+    let m_plain = L1 { ordered: false, probes: true };
+    let a = bfs(&ctx, &m_plain, "L1-determinism-a", 3, u64::MAX, 60.0);
+    let b = bfs(&ctx, &m_plain, "L1-determinism-b", 3, u64::MAX, 60.0);
+    if a.states != b.states || a.transitions != b.transitions || a.per_depth_states != b.per_depth_states {
+        mc_core::machinery_error(&format!("C13: two runs of the same exploration disagree: {a:?} vs {b:?}"));
+    }
+
+    // Layer 1, multiset fingerprint, lookahead probes as additional oracle
+    let m1 = L1 { ordered: false, probes: true };
+    let s1 = bfs(&ctx, &m1, "L1", d1, 20_000_000, if quick { 35.0 } else { 600.0 });
+    println!("C13 L1 depth {} states {} transitions {} capped {} per-depth {:?} ({:.1}s)", s1.depth_completed, s1.states, s1.transitions, s1.capped, s1.per_depth_states, ctx.elapsed_s());
+
+    // Layer 1, order-sensitive fingerprint (cross-check of the symmetry argument)
+    let m_ord = L1 { ordered: true, probes: true };
+    let s_ord = bfs(&ctx, &m_ord, "L1-ordered", d_ord, 20_000_000, if quick { 10.0 } else { 200.0 });
+    let ms_ref = bfs(&ctx, &L1 { ordered: false, probes: false }, "L1-multiset-ref", d_ord, 20_000_000, 200.0);
+    if !s_ord.capped && !ms_ref.capped && !ctx.has_violations() {
+        let projected = multiset_projection_count(&L1 { ordered: true, probes: false }, d_ord, ctx.threads);
+        if projected != ms_ref.states {
+            mc_core::machinery_error(&format!(
+                "C13: order-sensitive exploration to depth {d_ord} reaches {projected} multiset classes, multiset exploration {} states: the symmetry reduction is not justified",
+                ms_ref.states
+            ));
+        }
+        ctx.note(format!(
+            "symmetry cross-check: order-sensitive exploration to depth {d_ord}: {} states projecting onto {projected} multiset classes == {} states of the multiset exploration",
+            s_ord.states, ms_ref.states
+        ));
+    }
+    println!("C13 L1-ordered depth {} states {} transitions {} ({:.1}s)", s_ord.depth_completed, s_ord.states, s_ord.transitions, ctx.elapsed_s());
+
+    // Layer 2
+    let s2 = crate::c13_l2::explore(&ctx, d2, cap2_s);
+    println!("C13 L2 depth {} states {} transitions {} capped {} per-depth {:?} ({:.1}s)", s2.depth_completed, s2.states, s2.transitions, s2.capped, s2.per_depth_states, ctx.elapsed_s());
+
+    let mut total = BfsStats::default();
+    for s in [&s1, &s_ord, &s2] {
+        total.add(s);
+    }
+    let mut cov = total.coverage();
+    cov.insert("layer1".into(), json!(s1.coverage()));
+    cov.insert("layer1_ordered".into(), json!(s_ord.coverage()));
+    cov.insert("layer2".into(), json!(s2.coverage()));
+    cov.insert("determinism_rerun".into(), json!({"depth": 3, "states": a.states, "transitions": a.transitions, "identical": true}));
+    cov.insert(
+        "bounds".into(),
+        json!({
+            "layer1": format!("8 substates (2 nodes x 2 partitions x {{Field(0),Map([1])}}), lock read/write, unlock oldest/newest per substate, get/get_mut/unlock on 4 kinds of dead handle; depth {}", s1.depth_completed),
+            "layer1_ordered": format!("same alphabet, acquisition-order-sensitive fingerprint; depth {}", s_ord.depth_completed),
+            "layer2": format!("{}; depth {}", crate::c13_l2::ALPHABET, s2.depth_completed),
+        }),
+    );
+    let exhaustive = !s1.capped && !s_ord.capped && !s2.capped;
+    let nontrivial = s1.states + s_ord.states + s2.states;
+    ctx.finish(
+        Level::ModelChecking,
+        "distinct states (canonical fingerprints of the real SubstateLocks / SubstateIO) reached over all layers",
+        nontrivial,
+        exhaustive,
+        cov,
+        &[
+            "handle ids only name handles: states that differ in absolute handle ids / acquisition order are merged (confirmed by the order-sensitive run on small depth)",
+            "a lock request is expected to be granted whenever the reader/writer model allows it (the statement's safety clauses alone would also be satisfied by refusing everything)",
+            "get/get_mut/unlock on a handle that is not open must not return normally (they panic by contract)",
+            "Layer 2: FORCE_WRITE only on store substates (the engine combines it with UNMODIFIED_BASE, which is refused on heap nodes); drop_node only on heap nodes; move_partition only from the heap",
+            "lock data payloads are only checked for identity",
+        ],
+    )
+}
+
+fn parse_op(s: &str) -> Option<Op> {
+    // Debug form of Op, e.g. "Lock { sub: 3, read_only: true }", "Unlock { sub: 1, which: Oldest }", "DeadGet(LastClosed)"
+    let num = |key: &str| -> Option<u8> {
+        let i = s.find(key)? + key.len();
+        let rest = &s[i..];
+        let end = rest.find(|c: char| !c.is_ascii_digit()).unwrap_or(rest.len());
+        rest[..end].parse().ok()
+    };
+    let dead = || {
+        if s.contains("LastClosed") {
+            Dead::LastClosed
+        } else if s.contains("FirstClosed") {
+            Dead::FirstClosed
+        } else if s.contains("NeverIssued") {
+            Dead::NeverIssued
+        } else {
+            Dead::Far
+        }
+    };
+    if s.starts_with("Lock") {
+        Some(Op::Lock { sub: num("sub: ")?, read_only: s.contains("read_only: true") })
+    } else if s.starts_with("Unlock") {
+        Some(Op::Unlock { sub: num("sub: ")?, which: if s.contains("Newest") { Which::Newest } else { Which::Oldest } })
+    } else if s.starts_with("DeadGetMut") {
+        Some(Op::DeadGetMut(dead()))
+    } else if s.starts_with("DeadGet") {
+        Some(Op::DeadGet(dead()))
+    } else if s.starts_with("DeadUnlock") {
+        Some(Op::DeadUnlock(dead()))
+    } else {
+        None
+    }
+}
+
+fn replay(ctx: Ctx) -> ! {
+    let case = ctx.read_replay_case().unwrap_or_else(|| mc_core::machinery_error("no replay case"));
+    let base = case.get("base").and_then(|b| b.as_str()).unwrap_or("").to_string();
+    let hist: Vec<String> = case
+        .get("history")
+        .and_then(|h| h.as_array())
+        .map(|a| a.iter().filter_map(|x| x.as_str().map(|s| s.to_string())).collect())
+        .unwrap_or_default();
+    if base.starts_with("L2") {
+        crate::c13_l2::replay(&ctx, &hist);
+    } else {
+        let m = L1 { ordered: base.contains("ordered"), probes: true };
+        let mut st = m.init();
+        for (i, s) in hist.iter().enumerate() {
+            let op = parse_op(s).unwrap_or_else(|| mc_core::machinery_error(&format!("cannot parse op {s}")));
+            match mc_core::catch(|| m.step(&mut st, &op)) {
+                Ok(Ok(class)) => println!("step {i}: {op:?} -> {class}"),
+                Ok(Err((k, w))) => {
+                    println!("step {i}: {op:?} -> VIOLATION {k}: {w}");
+                    ctx.violation(k, w, case.clone());
+                    break;
+                }
+                Err(p) => {
+                    println!("step {i}: {op:?} -> harness panic {p}");
+                    ctx.violation(format!("panic@{}", mc_core::last_panic_location()), p, case.clone());
+                    break;
+                }
+            }
+        }
+    }
+    ctx.finish(Level::ModelChecking, "replay", 0, false, serde_json::Map::new(), &[])
 }
